@@ -4,23 +4,28 @@ import common as C
 import gen as G
 import cont
 import codecloop
+import decodeloop
 
-MODEL_TARGETS = ["model/Container.vo", "model/CodecLoop.vo"]
+MODEL_TARGETS = ["model/Container.vo", "model/CodecLoop.vo", "model/DecodeLoop.vo"]
 COQ_TARGETS = ["props/C05.vo", "proofs/ConstsTie.vo"]
 THEOREMS = [("C05", ["C05_roundtrip_null", "C05_roundtrip_file", "C05_any_buffered_reader", "C05_build", "C05_blocks", "C05_any_partition",
                      "C05_loop_returns_full_stream", "C05_loop_returns_valid_stream", "C05_loop_any_classification",
                      "C05_contract_inhabited", "C05_loop_before_fix_refuted",
-                     "C05_snappy_framing_roundtrip", "C05_snappy_crc_checked", "C05_snappy_short_block"])]
-PROOF_FILES = ["proofs/ContainerReadProofs.v", "proofs/ContainerProofs.v", "proofs/ContainerFinal.v", "proofs/RoundTripProofs.v", "proofs/CodecLoopProofs.v", "proofs/ContainerHeaderProofs.v", "proofs/ContainerChunkProofs.v", "props/C05.v"]
+                     "C05_snappy_framing_roundtrip", "C05_snappy_crc_checked", "C05_snappy_short_block",
+                     "C05_compressed_block_read_back", "C05_compressed_block_read_back_any_values", "C05_snappy_block_read_back",
+                     "C05_decoder_model_runs", "C05_end_check_before_fix_refuted", "C05_decoder_contract_inhabited", "C05_toy_block_read_back"])]
+PROOF_FILES = ["proofs/ContainerReadProofs.v", "proofs/ContainerProofs.v", "proofs/ContainerFinal.v", "proofs/RoundTripProofs.v", "proofs/CodecLoopProofs.v", "proofs/ContainerHeaderProofs.v", "proofs/ContainerChunkProofs.v", "proofs/DecodeLoopProofs.v", "proofs/DecodeLoopDe.v", "proofs/DecodeLoopToy.v", "props/C05.v"]
 TRUSTED_BASE = [
     "Coq 8.16.1 kernel; no axioms (Print Assumptions: closed)",
     "hand-written model/Container.v of writer/mod.rs and reader/mod.rs (block compressor abstract in the writer; the reader model is the null codec), tied by the correspondence runs of C15/C16/C17 (per-call outcomes, sink bytes, item sequences)",
     "hand-written model/CodecLoop.v of writer/compression.rs (the three grow-the-buffer encode loops, snappy framing with the reader-side CRC check), tied to the crate by hook H3 (hooks/H3.diff: overridable start length of the output buffer, per-call trace): every recorded trace is replayed through the extracted model loop, which must make the same calls (input length, window length), take the same decision and hand on the same bytes",
-    "the compression libraries (flate2/miniz_oxide, bzip2, snap, xz2, zstd) are ABSTRACT: the loop theorems hold for every library meeting CodecLoop.stream_contract_valid (resp. stream_contract); each clause is validated on the real traces of every run (coverage.notes.codec_loops), not proved of the libraries; the streaming decoders of reader/decompression.rs are OUTSIDE the model: for them the property is decided on the crate only",
-    "OCaml driver commands codecloop / snappy (parsing and printing only), harness command codecloop (push_serialized + finish_block on one container writer; independent oracles: one library call with a large buffer, the library's own decoder; zlib.crc32 of Python for the snappy trailer)",
+    "the compression libraries (flate2/miniz_oxide, bzip2, snap, xz2, zstd) are ABSTRACT: the loop theorems hold for every library meeting CodecLoop.stream_contract_valid (resp. stream_contract); each clause is validated on the real traces of every run (coverage.notes.codec_loops), not proved of the libraries",
+    "hand-written model/DecodeLoop.v of reader/decompression.rs (BufReader(capacity) over an abstract streaming decoder over Take(block size); std's BufReader fill/bypass discipline; the end-of-block check: 1-byte read, Take limit; snappy block), tied to the crate by hook H4 (hooks/H4.diff: overridable BufReader capacity, trace of every decoder read and of the end-of-block check): every recorded check is replayed through the extracted model (DecodeLoop.replay_end: same decoder request, same decision, same Take limit afterwards). ABSTRACTION: values are decoded by De.de in slice mode on the decompressed bytes still to come and the BufReader state is advanced by the bytes taken (DecodeLoop.v header; C11 = de through any chunking equals de on the slice); the streaming decoders are ABSTRACT: the theorems hold for every decoder meeting DecodeLoop.stream_decoder_contract, whose clauses are validated on every run on the reads the crate made and on direct probes of the decoder types the crate uses (coverage.notes.decode_side), not proved of the libraries; the contract is inhabited (C05_decoder_contract_inhabited: the small lagging codec of DecodeLoop.v meets it for every input, cut and extension)",
+    "OCaml driver commands codecloop / snappy / decend (parsing and printing only), harness commands crt / decode / dprobe (decblock.rs), codecloop (push_serialized + finish_block on one container writer; independent oracles: one library call with a large buffer, the library's own decoder; zlib.crc32 of Python for the snappy trailer)",
     "Rust harness (container writer/reader driver, chunk-controlled BufRead)",
 ]
 ASSUMPTIONS = [
+    "proved (DecodeLoopProofs.v, DecodeLoopDe.v): for every streaming decoder meeting stream_decoder_contract ((i) the output of a prefix is a prefix, no error and no early 0 on the complete stream, (iii) only a read returning 0 guarantees the stream was consumed to its end, (iv) bytes behind the end are not consumed), every BufReader capacity >= 1, every chunking of the source (slice or chunk plan) and every read policy of the deserializer: a block laid out as the writer does (complete stream of the encodings of the count values, sync marker) yields exactly the values, the end-of-block check passes -- also with zero-byte datums (decoder never read before the check) and lagging decoders -- and the source is left behind the marker (C05_compressed_block_read_back, with De.de as value decoder; _any_values for any value decoder); snappy blocks read back (C05_snappy_block_read_back); the check of commit 8463ea9^ is refuted on concrete runs (C05_end_check_before_fix_refuted). the contract is inhabited by a concrete lagging decoder (C05_decoder_contract_inhabited). NOT proved: that any REAL decoder meets the contract; the deserializer re-modelled over the BufReader (abstraction above); several blocks in sequence for compressed codecs (one block at a time)",
     "proved (CodecLoopProofs.v): for every library meeting stream_contract_valid, every input, every output buffer of length >= 1 left by previous blocks (empty: START >= 1), each of the three encode loops (deflate, bzip2, xz status classifications as in the crate) ends with StreamEnd and a true assertion -- no Err, no panic --, within |x| + obound x + 1 library calls, and hands a valid complete stream for x to the block writer; under stream_contract (the stream is a function enc of the input) exactly enc x; final buffer length = initial * 2^(calls-1); if 'not finished' is only answered with a full window: calls = 1 or initial * 2^(calls-2) <= |stream|; the classifications before ef7c759 are refuted; the contract is inhabited; snappy framing round trips and rejects any other trailer. NOT modelled: usize overflow of the doubling, allocation failure, the zstandard/snappy libraries (one call each)",
     "observed by the run, reported in coverage.notes: miniz_oxide at level 1 does not meet the stronger contract (its stream depends on where the output windows ended; both streams decode) -- only stream_contract_valid applies to it",
     "proved: write-then-read = identity for the null codec -- every list of conforming values, every approx_block_size, every interleaving of serialize / push / finish_block, closing by finish_block, into_inner or drop, every sink schedule on which the calls return Ok; any partition into blocks reads back (C05_any_partition); the whole file incl. the header (C05_roundtrip_file: cr_open returns the metadata written) and through a BufRead with any chunking (C05_any_buffered_reader)",
@@ -112,7 +117,7 @@ def run(ctx):
     notes = {}
     extra_eval = 0
     extra_distinct = set()
-    for part in (codecloop.run_loops, codecloop.run_snappy, codecloop.run_oneshot):
+    for part in (codecloop.run_loops, codecloop.run_snappy, codecloop.run_oneshot, decodeloop.run_valid):
         r = part(random.Random(ctx["seed"] * 7919 + 55), ctx["tier"])
         violations.extend(r["violations"])
         diffs.extend(r["diffs"])
@@ -129,5 +134,7 @@ def run(ctx):
                     "of START-1..START+1, 2*START-1..2*START+1, 4*START-1..4*START+1 bytes (text x3)} on a fresh codec state, plus sequences of blocks on one codec state "
                     "(big, 1 byte, empty, text, bigger; empty, empty, growing, big, 1 byte): every trace replayed through the extracted model loop (same calls, decision, bytes), "
                     "every clause of stream_contract_valid checked on it, block = one-call stream of the library, library decoder gives the input back; snappy: trailer = "
-                    "big-endian zlib.crc32, model framing = crate bytes, bit-flipped and little-endian trailers rejected by crate and model; snappy/zstandard codec state reused big then small",
+                    "big-endian zlib.crc32, model framing = crate bytes, bit-flipped and little-endian trailers rejected by crate and model; snappy/zstandard codec state reused big then small; "
+                    "decode side (hook H4): codecs {deflate default/1, bzip2, xz, zstandard} x payloads {3 small datums, zero-byte datums in 2 blocks, 2 blocks of 300..2000 byte datums, empty bytes} x BufReader capacity {1,2,7,64,8192} x source {slice, 1, 2, 7 bytes per fill_buf}: values read back, every end-of-block check replayed through the extracted model, "
+                    "stream_decoder_contract checked on the reads the crate made and on direct probes of the decoders (request sizes {1,2,7,64,mixed,8192} x chunkings {1,2,7,all} x stream complete / cut / followed by other bytes)",
             "samples": samples, "violations": violations, "model_diffs": diffs}
